@@ -565,7 +565,7 @@ func init() {
 	register(&CheckDef{
 		ID:    "C13",
 		Title: "Sync policy is honoured: acknowledged means flushed when the options say so",
-		Reach: []string{"done", "explicit-sync", "closed", "sync-batch", "rotated-checked", "threshold-some-unsynced"},
+		Reach: []string{"done", "explicit-sync", "closed", "sync-batch", "rotated-checked", "threshold-some-unsynced", "recovered-from-torn-tail"},
 		Jobs: func(tier string) []JobSpec {
 			var js []JobSpec
 			add := func(name string, params map[string]int64) {
@@ -596,6 +596,11 @@ func init() {
 						add(fmt.Sprintf("all-calls-sync%d-bsync%d-io%d", sy, bs, io), merge(base, p("k", 3, "ops", ops, "bmax", 1, "sync", sy, "bsync", bs, "io", io, "vlens", 1, "dfs_lo", 0, "dfs_hi", 0))) // no DataFileSize pressure: with small files the 70-byte batch reserve makes every Commit rotate (and fsync) first
 					}
 				}
+			}
+			// the policy after a recovery that dropped a torn tail (power loss cut at every length)
+			add("always-std-after-torn-tail", merge(base, p("torntail", 1, "k", 2, "ops", opPut|opDelete|opSync, "sync", syncAlways, "vlens", 2, "dfs_lo", 0, "dfs_hi", 0)))
+			if tier != "quick" {
+				add("threshold-std-after-torn-tail-batch", merge(base, p("torntail", 1, "k", 2, "ops", opPut|opSync|opBatch, "sync", syncThreshold, "bsync", 1, "vlens", 2, "dfs_lo", 0, "dfs_hi", 0)))
 			}
 			add("always-mmap", merge(base, p("k", k, "ops", opPut|opDelete|opSync|opRestart, "sync", syncAlways, "io", 1)))
 			add("threshold-mmap", merge(base, p("k", k, "ops", opPut|opDelete|opRestart, "sync", syncThreshold, "io", 1)))
@@ -686,19 +691,19 @@ func init() {
 				add("k3", merge(base, p("k", 3, "ops", opPut|opDelete)))
 				add("k2-batch-btree", merge(base, p("k", 2, "ops", opPut|opBatch, "bmax", 2, "vlens", 1, "index", 1)))
 				add("k2-mmap", merge(base, p("k", 2, "ops", opPut|opDelete, "io", 1)))
-			add("second-merge-generation", merge(base, p("premerge", 2, "k", 2, "ops", opPut|opDelete, "vlens", 1)))
-			// DataFileSize smaller than some (or all) records: oversized records sit alone in their files, the merge
-			// output has several files and the hint indexes records larger than the limit
-			add("records-larger-than-dfs-k3", merge(base, p("k", 3, "ops", opPut|opDelete, "vlens", 3, "vbig", 25, "dfs_lo", 15, "dfs_hi", 45)))
-			add("long-keys-k3", merge(base, p("ckeys", 6, "k", 3, "ops", opPut|opDelete, "vlens", 1, "dfs_lo", 80, "dfs_hi", 200)))
-			add("cfgsweep-k2", merge(base, p("cfgsweep", 2, "k", 2, "ops", opPut|opDelete, "vlens", 1, "dfs_lo", 40, "dfs_hi", 40)))
+				add("second-merge-generation", merge(base, p("premerge", 2, "k", 2, "ops", opPut|opDelete, "vlens", 1)))
+				// DataFileSize smaller than some (or all) records: oversized records sit alone in their files, the merge
+				// output has several files and the hint indexes records larger than the limit
+				add("records-larger-than-dfs-k3", merge(base, p("k", 3, "ops", opPut|opDelete, "vlens", 3, "vbig", 25, "dfs_lo", 15, "dfs_hi", 45)))
+				add("long-keys-k3", merge(base, p("ckeys", 6, "k", 3, "ops", opPut|opDelete, "vlens", 1, "dfs_lo", 80, "dfs_hi", 200)))
+				add("cfgsweep-k2", merge(base, p("cfgsweep", 2, "k", 2, "ops", opPut|opDelete, "vlens", 1, "dfs_lo", 40, "dfs_hi", 40)))
 			} else {
 				add("k4", merge(base, p("k", 4, "ops", opPut|opDelete)))
 				add("k3-pool3", merge(base, p("k", 3, "pool", 3, "klen", 3, "ops", opPut|opDelete, "vlens", 3, "vbig", 25)))
 				add("k3-batch", merge(base, p("k", 3, "ops", opPut|opDelete|opBatch, "bmax", 2, "vlens", 1)))
 				add("k3-mmap-skiplist", merge(base, p("k", 3, "ops", opPut|opDelete, "io", 1, "index", 2)))
-			add("second-merge-generation-k3", merge(base, p("premerge", 2, "k", 3, "ops", opPut|opDelete)))
-			add("second-merge-generation-mmap", merge(base, p("premerge", 2, "k", 2, "ops", opPut|opDelete, "io", 1)))
+				add("second-merge-generation-k3", merge(base, p("premerge", 2, "k", 3, "ops", opPut|opDelete)))
+				add("second-merge-generation-mmap", merge(base, p("premerge", 2, "k", 2, "ops", opPut|opDelete, "io", 1)))
 			}
 			js = append(js, JobSpec{Name: "witness", Harness: "root", Func: "verifHarnessC18", Params: merge(base, p("k", 1, "ops", opPut, "witness", 1)), Scale: scaleDF(32), Witness: true})
 			return js
